@@ -5,6 +5,7 @@ import (
 	"go/constant"
 	"go/token"
 	"go/types"
+	"regexp"
 	"strings"
 )
 
@@ -53,15 +54,16 @@ func shiftMask(p *Pkg, n ast.Node) (div, mod uint64, ok bool) {
 	return
 }
 
-// levelOf finds the bucket array a branch selects: t.near -> 0, t.tvec[k] -> k+1.
+// levelOf finds the bucket array a branch selects: t.near -> 0, t.tvec[k] -> k+1 (the method is alpha-normalised
+// while it is read: its receiver prints as _r).
 func levelOf(p *Pkg, n ast.Node) (lvl int, ok bool) {
 	lvl = -1
 	ast.Inspect(n, func(x ast.Node) bool {
 		switch e := x.(type) {
 		case *ast.IndexExpr:
-			if s := p.Src(e.X); s == "t.near" {
+			if s := p.Src(e.X); s == "_r.near" {
 				lvl, ok = 0, true
-			} else if s == "t.tvec" {
+			} else if s == "_r.tvec" {
 				if k, isC := constU(p, e.Index); isC {
 					lvl, ok = int(k)+1, true
 				}
@@ -74,10 +76,12 @@ func levelOf(p *Pkg, n ast.Node) (lvl int, ok bool) {
 
 func pow2(u uint64) bool { return u != 0 && u&(u-1) == 0 }
 
-// commBody returns the printed body statements of the select case of `fn` that receives from `ch`.
-func commBody(p *Pkg, fd *ast.FuncDecl, ch string) ([]string, bool) {
-	var out []string
-	found := false
+// commBody returns the printed body statements of the select case of `fn` that receives from `<owner>.<ch>`, and how
+// that owner prints. The function is alpha-normalised (`normalise`, c07.go) while it is printed: its receiver is _r,
+// its parameters _p0, …, every local the placeholder of its declaration (number them with renumberDecl); when the
+// owner is a local initialised from a field of the receiver (the driver's `var t = v.T`) its initialiser is returned too.
+func commBody(p *Pkg, fd *ast.FuncDecl, ch string) (out []string, owner, ownerInit string, found bool) {
+	defer p.normalise(fd)()
 	ast.Inspect(fd, func(x ast.Node) bool {
 		cc, ok := x.(*ast.CommClause)
 		if !ok || cc.Comm == nil || found {
@@ -94,15 +98,26 @@ func commBody(p *Pkg, fd *ast.FuncDecl, ch string) ([]string, bool) {
 		}
 		if u, ok := rhs.(*ast.UnaryExpr); ok && u.Op == token.ARROW && strings.HasSuffix(p.Src(u.X), "."+ch) {
 			found = true
+			if sel, ok := u.X.(*ast.SelectorExpr); ok {
+				owner = p.Src(sel.X)
+				if id, ok := sel.X.(*ast.Ident); ok && fd.Body != nil {
+					if d := localInit(fd, id.Name); d != nil {
+						ownerInit = p.rawLine(d)
+					}
+				}
+			}
 			for _, st := range cc.Body {
-				out = append(out, normSrc(p.Src(st)))
+				out = append(out, p.rawLine(st))
 			}
 			return false
 		}
 		return true
 	})
-	return out, found
+	return
 }
+
+var c05recv = regexp.MustCompile(`\b_r\b`)
+var c05recvField = regexp.MustCompile(`^_r\.[A-Za-z_][A-Za-z_0-9]*$`)
 
 func normSrc(s string) string {
 	lines := strings.Split(s, "\n")
@@ -123,8 +138,8 @@ func mirror(o *Out, p *Pkg, recv, worker, ch, drvRecv, drvFn string) {
 		o.problem("mirror %s.%s / %s.%s: function not found", recv, worker, drvRecv, drvFn)
 		return
 	}
-	wb, ok1 := commBody(p, wf, ch)
-	db, ok2 := commBody(p, df, ch)
+	wb, wOwner, _, ok1 := commBody(p, wf, ch)
+	db, dOwner, dInit, ok2 := commBody(p, df, ch)
 	if !ok1 || !ok2 {
 		o.problem("mirror %s: select case receiving from %s not found (worker %v, driver %v)", drvFn, ch, ok1, ok2)
 		return
@@ -132,10 +147,24 @@ func mirror(o *Out, p *Pkg, recv, worker, ch, drvRecv, drvFn string) {
 	if n := len(db); n > 0 && strings.HasPrefix(db[n-1], "return") {
 		db = db[:n-1]
 	}
-	if strings.Join(wb, " ; ") != strings.Join(db, " ; ") {
-		o.problem("mirror check: %s.%s handles <-%s with {%s} but the driver %s.%s runs {%s}", recv, worker, ch, strings.Join(wb, " ; "), drvRecv, drvFn, strings.Join(db, " ; "))
+	// both bodies are compared up to the names of receivers and locals: the timer the case belongs to prints as _r
+	// (the worker's receiver; in the driver the local initialised from a field of the driver's receiver, `var t = v.T`,
+	// whose own receiver then prints as _drv), the other locals as _v0, _v1, … by order of declaration
+	wt := renumberDecl(strings.Join(wb, " ; "))
+	if wOwner != "_r" {
+		o.problem("mirror %s: the worker %s.%s does not receive from a channel of its receiver", drvFn, recv, worker)
 	}
-	o.str("mirror_"+drvRecv+"_"+drvFn, strings.Join(wb, " ; "), "body of `case <-"+ch+"` in "+recv+"."+worker+" (the driver's copy is compared with it)")
+	dj := c05recv.ReplaceAllString(strings.Join(db, " ; "), "_drv")
+	if localMark.MatchString(dOwner) && localMark.FindString(dOwner) == dOwner && c05recvField.MatchString(dInit) {
+		dj = strings.ReplaceAll(dj, dOwner, "_r")
+	} else {
+		o.problem("mirror %s: the driver %s.%s does not receive from a channel of a local initialised from a field of its receiver", drvFn, drvRecv, drvFn)
+	}
+	dt := renumberDecl(dj)
+	if wt != dt {
+		o.problem("mirror check: %s.%s handles <-%s with {%s} but the driver %s.%s runs {%s}", recv, worker, ch, wt, drvRecv, drvFn, dt)
+	}
+	o.str("mirror_"+drvRecv+"_"+drvFn, wt, "body of `case <-"+ch+"` in "+recv+"."+worker+", alpha-normalised: _r the receiver, _vN the locals (the driver's copy is compared with it)")
 }
 
 func extractC05(repo string, o *Out) {
@@ -180,32 +209,46 @@ func extractC05(repo string, o *Out) {
 	// addNode: clamp + the if-chain of placement
 	var thresholds, divs, mods []uint64
 	clamp := uint64(0)
-	if fd := p.Func("HHWheelTimer", "addNode"); fd == nil {
+	if fd := p.Func("HHWheelTimer", "addNode"); fd == nil || fd.Body == nil {
 		o.problem("method HHWheelTimer.addNode not found")
 	} else {
-		var chain *ast.IfStmt
+		// addNode is read in its alpha-normalised form (receiver _r, the node _p0, every local the placeholder of its
+		// declaration) and the distance in ticks (`ticks` in the source the model was written from) is found by its
+		// role, not by its name: it is the local variable X of the clamp `if X > C { X = C }`; the placement chain must
+		// compare the same X, and the slot index must be initialised with `_r.currTick + uint32(X)`
+		restore := p.normalise(fd)
+		ticks := ""
 		for _, st := range fd.Body.List {
 			is, ok := st.(*ast.IfStmt)
-			if !ok {
+			if !ok || is.Init != nil || is.Else != nil || len(is.Body.List) != 1 {
 				continue
 			}
 			be, ok := is.Cond.(*ast.BinaryExpr)
-			if !ok || p.Src(be.X) != "ticks" {
+			if !ok || be.Op != token.GTR {
 				continue
 			}
-			switch be.Op {
-			case token.GTR:
-				if c, ok := constU(p, be.Y); ok && len(is.Body.List) == 1 {
-					if as, ok := is.Body.List[0].(*ast.AssignStmt); ok && p.Src(as.Lhs[0]) == "ticks" {
-						if c2, ok := constU(p, as.Rhs[0]); ok && c2 == c {
-							clamp = c
-						}
-					}
-				}
-			case token.LSS:
-				if _, ok := constU(p, be.Y); ok && chain == nil && is.Else != nil {
-					chain = is
-				}
+			x, isId := be.X.(*ast.Ident)
+			c, isC := constU(p, be.Y)
+			as, isAs := is.Body.List[0].(*ast.AssignStmt)
+			if !isId || !isC || !isAs || as.Tok != token.ASSIGN || len(as.Lhs) != 1 || len(as.Rhs) != 1 || p.Src(as.Lhs[0]) != x.Name || !localMark.MatchString(x.Name) {
+				continue
+			}
+			if c2, ok := constU(p, as.Rhs[0]); ok && c2 == c && ticks == "" {
+				clamp, ticks = c, x.Name
+			}
+		}
+		var chain *ast.IfStmt
+		for _, st := range fd.Body.List {
+			is, ok := st.(*ast.IfStmt)
+			if !ok || ticks == "" {
+				continue
+			}
+			be, ok := is.Cond.(*ast.BinaryExpr)
+			if !ok || p.Src(be.X) != ticks || be.Op != token.LSS {
+				continue
+			}
+			if _, ok := constU(p, be.Y); ok && chain == nil && is.Else != nil {
+				chain = is
 			}
 		}
 		if clamp == 0 {
@@ -221,11 +264,11 @@ func extractC05(repo string, o *Out) {
 			case *ast.IfStmt:
 				be, ok := s.Cond.(*ast.BinaryExpr)
 				c, isC := uint64(0), false
-				if ok && be.Op == token.LSS && p.Src(be.X) == "ticks" {
+				if ok && be.Op == token.LSS && p.Src(be.X) == ticks {
 					c, isC = constU(p, be.Y)
 				}
 				if !isC {
-					o.problem("addNode: branch %d: condition %s is not `ticks < constant`", lvl, p.Src(s.Cond))
+					o.problem("addNode: branch %d: condition %s is not `ticks < constant`", lvl, renumberDecl(p.Src(s.Cond)))
 				}
 				thresholds = append(thresholds, c)
 				body, cur = s.Body, s.Else
@@ -252,18 +295,10 @@ func extractC05(repo string, o *Out) {
 			o.problem("addNode: %d placement branches for WHEEL_LEVEL=%d", lvl, levels)
 		}
 		// idx must be the wrapped sum currTick + uint32(ticks)
-		okIdx := false
-		ast.Inspect(fd, func(x ast.Node) bool {
-			if vs, ok := x.(*ast.ValueSpec); ok && len(vs.Names) == 1 && vs.Names[0].Name == "idx" && len(vs.Values) == 1 {
-				if normSrc(p.Src(vs.Values[0])) == "t.currTick + uint32(ticks)" {
-					okIdx = true
-				}
-			}
-			return true
-		})
-		if !okIdx {
+		if ticks == "" || localFrom(p, fd, "_r.currTick+uint32("+ticks+")") == "" {
 			o.problem("addNode: `var idx = t.currTick + uint32(ticks)` not found")
 		}
+		restore()
 	}
 	o.nat("clampTicks", clamp, "addNode: `if ticks > C { ticks = C }`")
 	o.natList("placeThresholds", thresholds, "addNode: constants of the `ticks < C` chain, in order")
@@ -274,23 +309,24 @@ func extractC05(repo string, o *Out) {
 	if fd := p.Func("HHWheelTimer", "shiftWheels"); fd == nil {
 		o.problem("method HHWheelTimer.shiftWheels not found")
 	} else {
-		src := normSrc(p.Src(fd.Body))
-		for _, want := range []string{"var ct = t.currTick", "if ct&TVR_MASK != 0 { return }", "var ticks = ct >> TVR_BITS",
-			"for i := 0; i < WHEEL_LEVEL; i++ {", "var idx = int(ticks & TVN_MASK)", "t.cascade(i, idx)", "if idx != 0 { break }", "ticks >>= TVN_BITS"} {
+		// alpha-normalised: _r = t, and by order of declaration _v0 = ct, _v1 = ticks, _v2 = i, _v3 = idx
+		src := c05body(p, fd)
+		for _, want := range []string{"var _v0 = _r.currTick", "if _v0&TVR_MASK != 0 { return }", "var _v1 = _v0 >> TVR_BITS",
+			"for _v2 := 0; _v2 < WHEEL_LEVEL; _v2++ {", "var _v3 = int(_v1 & TVN_MASK)", "_r.cascade(_v2, _v3)", "if _v3 != 0 { break }", "_v1 >>= TVN_BITS"} {
 			if !strings.Contains(src, want) {
-				o.problem("shiftWheels: expected `%s`", want)
+				o.problem("shiftWheels: expected `%s` (alpha-normalised: _r = t, _v0 = ct, _v1 = ticks, _v2 = i, _v3 = idx)", want)
 			}
 		}
 	}
 	// tick and expireNear call order
 	if fd := p.Func("HHWheelTimer", "tick"); fd == nil {
 		o.problem("method HHWheelTimer.tick not found")
-	} else if got := normSrc(p.Src(fd.Body)); got != "{ t.expireNear() t.currTick++ t.tickTime++ t.shiftWheels() t.expireNear() }" {
+	} else if got := c05body(p, fd); got != "{ _r.expireNear() _r.currTick++ _r.tickTime++ _r.shiftWheels() _r.expireNear() }" {
 		o.problem("HHWheelTimer.tick body is %s", got)
 	}
 	if fd := p.Func("HHWheelTimer", "expireNear"); fd != nil {
-		src := normSrc(p.Src(fd.Body))
-		if !strings.Contains(src, "var index = t.currTick & TVR_MASK") || !strings.Contains(src, "t.near[index].replaceInit()") {
+		src := c05body(p, fd) // _v0 = index, the first local declared
+		if !strings.Contains(src, "var _v0 = _r.currTick & TVR_MASK") || !strings.Contains(src, "_r.near[_v0].replaceInit()") {
 			o.problem("expireNear: bucket selection changed")
 		}
 	} else {
@@ -299,7 +335,7 @@ func extractC05(repo string, o *Out) {
 	// heap order
 	if fd := p.Func("timerHeap", "Less"); fd == nil {
 		o.problem("method timerHeap.Less not found")
-	} else if got := normSrc(p.Src(fd.Body)); got != "{ if q[i].deadline == q[j].deadline { return q[i].id > q[j].id } return q[i].deadline < q[j].deadline }" {
+	} else if got := c05body(p, fd); got != "{ if _r[_p0].deadline == _r[_p1].deadline { return _r[_p0].id > _r[_p1].id } return _r[_p0].deadline < _r[_p1].deadline }" {
 		o.problem("timerHeap.Less body is %s", got)
 	}
 	// the driver's copies of the worker's select cases
@@ -307,12 +343,20 @@ func extractC05(repo string, o *Out) {
 	mirror(o, p, "HHWheelTimer", "worker", "pendingDel", "VerifWheel", "StepDel")
 	mirror(o, p, "TimerQueue", "worker", "pendingAdd", "VerifQueue", "StepAdd")
 	mirror(o, p, "TimerQueue", "worker", "pendingDel", "VerifQueue", "StepDel")
-	for _, w := range [][3]string{{"HHWheelTimer", "ticker.C", "var current = t.convTimeUnit(now) ; t.update(current)"}, {"TimerQueue", "ticker.C", "s.tick(now)"}} {
+	// the ticker case, alpha-normalised: _v0 = now (the value received), _v1 = current
+	for _, w := range [][3]string{{"HHWheelTimer", "ticker.C", "var _v1 = _r.convTimeUnit(_v0) ; _r.update(_v1)"}, {"TimerQueue", "ticker.C", "_r.tick(_v0)"}} {
 		if fd := p.Func(w[0], "worker"); fd != nil {
-			b, ok := commBody(p, fd, "C")
-			if !ok || strings.Join(b, " ; ") != w[2] {
-				o.problem("%s.worker: ticker case is {%s}, expected {%s}", w[0], strings.Join(b, " ; "), w[2])
+			b, _, _, ok := commBody(p, fd, "C")
+			if got := renumberDecl(strings.Join(b, " ; ")); !ok || got != w[2] {
+				o.problem("%s.worker: ticker case is {%s}, expected {%s}", w[0], got, w[2])
 			}
 		}
 	}
+}
+
+// c05body prints the body of a function from its alpha-normalised declaration (`normalise`, c07.go) on one line:
+// receiver _r, parameters _p0, _p1, …, locals _v0, _v1, … by order of declaration.
+func c05body(p *Pkg, fd *ast.FuncDecl) string {
+	defer p.normalise(fd)()
+	return renumberDecl(normSrc(p.Src(fd.Body)))
 }
